@@ -67,7 +67,9 @@ class CliView:
                 callee = self.bin.by_id.get(f.get("resolved") or d) or self.bin.by_id.get(d)
                 if callee is not None:
                     rt = callee.local_ty(0)
-                    if rt.startswith("std::result::Result<") and "lexopt::Error" in rt:
+                    # the argument parser: the function main calls that hands back a Result and drives a lexopt
+                    # parser (whatever error type it reports its findings in)
+                    if rt.startswith("std::result::Result<") and ("lexopt::Error" in rt or any((fn_of(tt) or {}).get("def", "").startswith("lexopt::Parser::from_") for _, _, tt in Super(self.bin, callee, depth=2).calls())):
                         self.parse.append((n, b, t, callee))
         self._writes = None
         self._entry = None
@@ -274,7 +276,10 @@ class CliView:
         if tgt is None:
             return set()
         tnode = (node[0], tgt)
-        sts = [(tnode, f) for f in self._states().get(tnode, [])]
+        # "returned normally": states in which the call's own result is known to be Err are not part of it
+        dest = b.blocks[node[1]]["term"]["dest"]
+        dkey = (node[0], dest["l"]) if not dest["pr"] else None
+        sts = [(tnode, f) for f in self._states().get(tnode, []) if not (dkey is not None and f.get(dkey) == ("var", 1) and b.local_ty(dest["l"]).startswith("std::result::Result<"))]
         if not sts:
             return _Reach({})
         return _Reach(ps.explore(sts, removed_nodes, removed_edges))
